@@ -10,9 +10,9 @@ theorem failedRun_left :
     failedRun.action = .none ∧ failedRun.outcome = none ∧ failedRun.request.isNone = true := ⟨rfl, rfl, rfl⟩
 
 /-- the table, specialised to "preconditions passed", cell by cell -/
-theorem decide_pass (ro ow ns ce de : Bool) (pol : Policy) (s : Situation) :
-    ResourceFn.decide ⟨ro, ow, ns, ce, de, pol, true⟩ s =
-      if de then (match s with | .absent => (.none, .ok) | _ => (.delete, .retry))
+theorem decide_pass (ro ow ns ce de : Bool) (pol : Policy) (co pg : Bool) (s : Situation) :
+    ResourceFn.decide ⟨ro, ow, ns, ce, de, pol, true, co, pg⟩ s =
+      if de then (if s.isAbsent then (.none, .ok) else (.delete, .retry))
       else if s.isAbsent && (ro || !ce) then (.none, .retry)
       else if !s.isAbsent && ro then (.none, .ok)
       else if s.isAbsent then (.create, .retry)
@@ -49,7 +49,7 @@ theorem reconcile_follows_table (enc : JVal → String) (defNs : String) (cmp : 
     | none =>
       simp only []
       cases de with
-      | true => right; exact ⟨.absent, by simp [decide_pass], by simp⟩
+      | true => right; exact ⟨.absent, by simp [decide_pass, Situation.isAbsent], by simp⟩
       | false =>
         simp only [Bool.false_eq_true, if_false]
         cases hrc : (ro || !ce) with
@@ -76,7 +76,7 @@ theorem reconcile_follows_table (enc : JVal → String) (defNs : String) (cmp : 
         generalize deleteRequest api defNs live = q
         cases q with
         | none => left; exact failedRun_left
-        | some req => right; exact ⟨.presentMatching, by simp [decide_pass], by simp⟩
+        | some req => right; exact ⟨.presentMatching, by simp [decide_pass, Situation.isAbsent], by simp⟩
       | false =>
         simp only [Bool.false_eq_true, if_false]
         cases ro with
